@@ -1178,6 +1178,154 @@ def exhaustive_cases(maxn):
     return out
 
 
+# ---------------------------------------------------------------------------------------------
+# the parser tie: ex_loc / ex_cmd / ex_idx / ex_arg of the real ex.c (harness/probe_exparse.c, request `parse`) on the command lines of
+# the generated cases.  ORACLE (independent of the model): the renderer r_cmd is the inverse of the parser, so the pieces the C
+# scanners split a rendered line into must be the pieces it was rendered from.  CORRESPONDENCE: ExDefs' parse loop (drv_ex `parse`).
+
+def cmd_pieces(c):
+    """(loc, cmd, arg) the command was rendered from, or None when the command has no single-line rendering"""
+    k = c['cmd']
+    if k == 'R':
+        return None
+    loc = r_addr(c.get('addr', []))
+    cmd = c.get('spell', k)
+    arg = ''
+    if k in ('d', 'y', 'pu', '@', 'rs'):
+        arg = c.get('reg') or ''
+    elif k == 'k':
+        arg = c['mark']
+    elif k == 'r':
+        arg = c['path']
+    elif k == '!':
+        arg = c['filter']
+    elif k == 'ec':
+        arg = c['text']
+    return (loc, cmd, arg)
+
+
+def step_pieces(step):
+    ps = [cmd_pieces(c) for c in step]
+    if any(p is None for p in ps):
+        return None
+    # `!` (and g, v) take the rest of the line: the renderer only puts them last
+    if any(c['cmd'] == '!' for c in step[:-1]):
+        return None
+    return '|'.join(r_cmd(dict(c, text=[], cmds=None, inblocks=None))[0] for c in step), ps
+
+
+def parse_answer(a):
+    """probe / model answer -> list of (loc, cmd, kind, arg, pos)"""
+    out = []
+    for w in a.split():
+        if w == '-':
+            continue
+        f = w.split(',')
+        if len(f) != 5:
+            return None
+        unh = lambda h: b'' if h == '-' else bytes.fromhex(h)
+        out.append((unh(f[0]), unh(f[1]), f[2], unh(f[3]), int(f[4])))
+    return out
+
+
+def parse_lines_extra(rng, n):
+    """raw command lines aimed at the case splits of the scanners: separators inside s / g / ! arguments, backslashes, quotes,
+    search addresses with the delimiter escaped, k<mark>, 8-bit bytes, lengths around EXLEN - 1"""
+    locs = ['', '1', '1,2', '%', '.,$', "'a,'b", '/a\\/b/', '?x|y?', '/ab/;+1', '$-1', ': 2', '0', "'a", '1;/c|d/']
+    cmds = ['p', 'd', 'd a', 'y b', 'pu', 'ka', 'k b', '=', 'u', 's/a|b/c/', 's/a/b|c/g', 's,a,b|,', 's/a\\/b/c/|p', '&', '~', 'g/a|b/p|p', 'v/x/d',
+            'g!/a/s/b/c/', '!tr a-z A-Z | cat', 'r !echo a|b', 'w !cat|cat', 'r f|p', 'ec a\\|b', 'ec "x|y', 'p "comment|d', 'zz', 'zz a|b', 'se ic',
+            'e! f|p', 'print', 'delete x', 'substitute/a/b/', 'a', 'i', 'c', 'rs x', 'ya', 'q!', '@a', '@', 'mark a', 'k', 'p\x80\xff']
+    out = []
+    for i in range(n):
+        k = 1 + rng.below(4)
+        parts = []
+        for _ in range(k):
+            parts.append(rng.choice(locs) + (' ' if rng.below(4) == 0 else '') + rng.choice(cmds))
+        ln = ('|' if rng.below(8) else ' | ').join(parts)
+        if rng.below(6) == 0:
+            want = rng.choice([509, 510, 511])
+            if len(ln) < want:
+                ln = ln + ' ' * 0 + ('|ec ' + 'x' * (want - len(ln) - 4) if want - len(ln) > 4 else 'x' * (want - len(ln)))
+        out.append(ln.encode('latin-1').decode('unicode_escape').encode('latin-1')[:511])
+    return out
+
+
+def parse_tie(ctx, res, cases, model):
+    probe = vlib.build_probe('exparse', includes=['ex', 'term'])
+    seen = {}
+    for c in cases:
+        for st in list(c['steps']) + [ln for ln in (c.get('cmdtab') or {}).values()]:
+            sp = step_pieces(st)
+            if sp and sp[0] and len(sp[0]) < 511 and sp[0] not in seen:
+                seen[sp[0]] = sp[1]
+    rendered = sorted(seen.items())
+    raw = [] if ctx.replay else parse_lines_extra(ctx.rng.fork('parselines'), 1500 if ctx.quick else 20000)
+    lines = [t.encode() for t, _ in rendered] + raw
+    lines = [l for l in lines if l and b'\0' not in l]
+    reqs = ['parse ' + l.hex() for l in lines]
+    rc, out, err = vlib.run_lines(probe, reqs, timeout=600)
+    if rc != 0 or len(out) != len(reqs):
+        res.disagree({'what': 'probe_exparse parse: rc=%d, %d answers for %d requests' % (rc, len(out), len(reqs)), 'stderr': err[-600:]})
+        return
+    mout = None
+    if model:
+        rcm, mout, errm = vlib.run_lines(model, reqs, timeout=600)
+        if rcm != 0 or len(mout) != len(reqs):
+            res.disagree({'what': 'model driver parse: rc=%d, %d answers for %d requests' % (rcm, len(mout), len(reqs)), 'stderr': errm[-600:]})
+            mout = None
+    nviol = 0
+    for i, (l, a) in enumerate(zip(lines, out)):
+        res.evaluations += 1
+        res.count('parse tie line (%s)' % ('rendered from a generated step' if i < len(rendered) else 'raw scanner line'))
+        pa = parse_answer(a)
+        if pa is None:
+            res.disagree({'what': 'probe_exparse parse: unreadable answer', 'input': l.decode('latin-1'), 'implementation': a[:300]})
+            continue
+        if i < len(rendered):
+            want = [(x.encode(), y.encode(), z.encode()) for x, y, z in rendered[i][1]]
+            got = [(p[0], p[1], p[3]) for p in pa]
+            if got != want and nviol < 5:
+                nviol += 1
+                res.violation({'what': 'the command line is not split into the (address, command, argument) pieces it was rendered from',
+                               'input': {'line': l.decode('latin-1')},
+                               'expected': [[x.decode('latin-1') for x in t] for t in want],
+                               'observed': [[x.decode('latin-1') for x in t] for t in got]})
+        if len(l) > 20 or b'|' in l:
+            res.nontriv('parse ' + l.decode('latin-1'))
+        if mout is not None:
+            pm = parse_answer(mout[i])
+            ok = pm is not None
+            if ok:
+                for k, q in enumerate(pm):
+                    if k >= len(pa):
+                        ok = False
+                        break
+                    p_ = pa[k]
+                    if q[2] == 'O':         # an excmds[] entry outside the model: address and name only
+                        ok = ok and (p_[0], p_[1]) == (q[0], q[1]) and int(p_[2]) >= 0
+                        break
+                    ok = ok and (p_[0], p_[1], p_[3], p_[4]) == (q[0], q[1], q[3], q[4]) and (int(p_[2]) >= 0) == (q[2] == 'S')
+                else:
+                    ok = ok and len(pm) == len(pa)
+            if not ok:
+                res.disagree({'what': 'parse of a command line: ex.c (probe_exparse) and ExDefs (extracted) differ',
+                              'input': {'line': l.decode('latin-1')}, 'implementation': a[:400], 'model': mout[i][:400]})
+    res.extra['parse tie lines'] = len(lines)
+
+
+def parse_replay(res, rp):
+    """re-run a recorded violation of the parser tie: the line and the pieces it was rendered from"""
+    probe = vlib.build_probe('exparse', includes=['ex', 'term'])
+    l = rp['input']['line'].encode('latin-1')
+    rc, out, err = vlib.run_lines(probe, ['parse ' + l.hex()], timeout=60)
+    res.evaluations += 1
+    pa = parse_answer(out[0]) if rc == 0 and out else None
+    got = [[p[0].decode('latin-1'), p[1].decode('latin-1'), p[3].decode('latin-1')] for p in pa] if pa is not None else None
+    if got != rp.get('expected'):
+        res.violation({'what': rp.get('what', 'the command line is not split into the pieces it was rendered from'), 'input': rp['input'],
+                       'expected': rp.get('expected'), 'observed': got})
+
+
 def run(ctx):
     res = ctx.res
     rng = ctx.rng
@@ -1190,6 +1338,9 @@ def run(ctx):
     if ctx.replay:
         rp = json.load(open(ctx.replay))
         c = rp.get('input', rp)
+        if isinstance(c, dict) and 'line' in c and 'steps' not in c:
+            parse_replay(res, rp)
+            return
         fix_json(c)
         cases = [c]
     else:
@@ -1259,6 +1410,8 @@ def run(ctx):
             if k2 == kind:
                 case, det = small, d2
         res.violation(dict(det, input=case_input(case)), kf=kf)
+    if not ctx.replay:
+        parse_tie(ctx, res, cases, model)
     for c in cases[:200:41]:
         res.sample({'script': build_script(c).decode('latin-1')[:600]})
     res.extra['cases'] = len(cases)
